@@ -261,6 +261,21 @@ CLAIMED = {
               "the gateway's reports as environment input; z3 QF_BV",
     note=TB + "; pairing across concurrently running callers rests on the routing invariant + assumed mutual exclusion of "
          "asyncio primitives (not proved); ATX LED hat driver not covered"),
+ "C15": dict(
+    category="proof",
+    text="SEQUENTIAL PART ONLY. For hid.send, hid.power_supply, hid.run_sequence and the serial run_sequence, executed "
+         "symbolically against assumed contracts of asyncio.Lock and of the gateway-level send, it is proved on every exit "
+         "path (return, CommunicationError with exceptions on or off, an exception raised by the sequence, CancelledError "
+         "injected at every await) that the transaction-lock token is balanced, that the gateway is only used while this task "
+         "holds the token, that every command with a device type is immediately preceded inside the same critical section by "
+         "EnableDeviceType of exactly that type, that a whole sequence runs inside one critical section, that every yielded "
+         "command is sent once and in order and that a started sequence is closed.",
+    design_ref="DESIGN.md 6 (C15), 3.9, 7",
+    technique="contract-based deductive verification: lock as a ghost token, exceptional postconditions on all exits incl. "
+              "injected cancellation; z3",
+    note=TB + "; NOT decided: 'every caller eventually completes' (liveness) and the all-interleavings claim itself, which "
+         "is reduced to these per-task obligations + the assumed mutual exclusion of asyncio.Lock (reduction not mechanised); "
+         "the per-gateway command serialisation (semaphore / tx lock) is covered by C16/C17 units"),
 }
 
 NA_REASON = "check under construction in this round (no obligations built yet); see DESIGN.md section 6"
